@@ -258,9 +258,14 @@ func decorate(r *core.Rand, rules []hsim.MRule) string {
 	for _, m := range rules {
 		b.WriteString(kw("rule") + ws() + m.Name + ws())
 		if m.Desc != nil {
-			if r.Chance(1, 2) {
+			switch {
+			case strings.Contains(*m.Desc, "\""):
 				b.WriteString("'" + *m.Desc + "'" + ws())
-			} else {
+			case strings.Contains(*m.Desc, "'"):
+				b.WriteString("\"" + *m.Desc + "\"" + ws())
+			case r.Chance(1, 2):
+				b.WriteString("'" + *m.Desc + "'" + ws())
+			default:
 				b.WriteString("\"" + *m.Desc + "\"" + ws())
 			}
 		}
@@ -378,6 +383,21 @@ func lhScenario(prop string, seed uint64) *core.Scenario {
 				}
 			}
 			if prop == "C17" && r.Chance(2, 3) {
+				for j := range op.Rules {
+					if op.Rules[j].Desc != nil && r.Chance(1, 4) {
+						// quote characters of the other kind at the edges of a description are plain content
+						d := *op.Rules[j].Desc
+						switch r.Intn(3) {
+						case 0:
+							d = "\"Strict\" " + d
+						case 1:
+							d = d + " 'C'"
+						default:
+							d = "'" + d + "'"
+						}
+						op.Rules[j].Desc = &d
+					}
+				}
 				op.Text = decorate(r, op.Rules)
 			}
 			if r.Chance(1, 5) {
@@ -545,7 +565,9 @@ func runLH(c *Check, seed uint64, i int, tier string, st *core.Stats) {
 							break
 						}
 						cx.Ops[j].Rules = append(cx.Ops[j].Rules[:k], cx.Ops[j].Rules[k+1:]...)
-						cx.Ops[j].Text = ""
+						if cx.Ops[j].Text != "" {
+							cx.Ops[j].Text = decorate(core.NewRand(uint64(k)+1), cx.Ops[j].Rules)
+						}
 						hsim.SetLExtra(cnd, cx)
 						if fails(cnd) {
 							best, changed = cnd, true
@@ -553,7 +575,13 @@ func runLH(c *Check, seed uint64, i int, tier string, st *core.Stats) {
 						}
 					}
 				}
-				if ex.Ops[j].Op == "build" && (ex.Ops[j].Text != "" || ex.Ops[j].ChunkSeed != 0) {
+				quoted := false
+				for _, rl := range ex.Ops[j].Rules {
+					if rl.Desc != nil && strings.ContainsAny(*rl.Desc, "\"'") {
+						quoted = true // the plain printer would have to escape it: keep the decorated text
+					}
+				}
+				if ex.Ops[j].Op == "build" && !quoted && (ex.Ops[j].Text != "" || ex.Ops[j].ChunkSeed != 0) {
 					cnd := best.Clone()
 					cx, _ := hsim.LExtraOf(cnd)
 					cx.Ops[j].Text, cx.Ops[j].ChunkSeed = "", 0
